@@ -377,8 +377,13 @@ func (adb *AccountsDB) loadDataTrie(accountHandler baseAccountHandler) error {
 
 	dataTrie := adb.dataTries.Get(accountHandler.AddressBytes())
 	if dataTrie != nil {
-		accountHandler.SetDataTrie(dataTrie)
-		return nil
+		// the cached trie is the account's data trie only if it has the root hash recorded in the account
+		// (a reverted account creation or removal leaves the trie of the other incarnation in the cache)
+		cachedRootHash, errRootHash := dataTrie.RootHash()
+		if errRootHash == nil && bytes.Equal(cachedRootHash, accountHandler.GetRootHash()) {
+			accountHandler.SetDataTrie(dataTrie)
+			return nil
+		}
 	}
 
 	dataTrie, err := adb.mainTrie.Recreate(accountHandler.GetRootHash())
